@@ -249,6 +249,7 @@ func c09one(rec *mon.Recorder, kind, source string, b []byte, verify func(v any)
 		cur = nxt
 	}
 	rec.Event("cycles-stable")
+	c09partial(rec, kind, b, cd, verify, in)
 	// fixed point with raw bytes discarded
 	var e1 []byte
 	if guard(rec, kind+".MarshalCBOR(raw cleared)", in, func() {
@@ -423,4 +424,115 @@ func c09hasBignumWitness(b []byte) bool {
 		}
 	}
 	return found
+}
+
+// c09headersOf returns the top-level Headers of a decoded value.
+func c09headersOf(v any) *cose.Headers {
+	switch m := v.(type) {
+	case *cose.Sign1Message:
+		return &m.Headers
+	case *cose.UntaggedSign1Message:
+		return &m.Headers
+	case *cose.SignMessage:
+		return &m.Headers
+	case *cose.Signature:
+		return &m.Headers
+	case *cose.Countersignature:
+		return &m.Headers
+	}
+	return nil
+}
+
+var partialMode atomic.Int32
+
+// c09partial discards only ONE of the two retained raw header fields of the top layer (what an
+// application does when it adds a kid or a countersignature to the unprotected bucket of a received
+// message) and re-encodes: the bucket whose raw bytes were kept must come out byte-identical and the
+// result must be decodable; when only the unprotected raw bytes were
+// discarded the signature must still verify.
+func c09partial(rec *mon.Recorder, kind string, b []byte, cd c09codec, verify func(v any) error, in map[string]any) {
+	top, err := refcbor.Parse(b)
+	if err != nil {
+		return
+	}
+	for top.Major == refcbor.Tag {
+		top = top.Kids[0]
+	}
+	if top.Major != refcbor.Array || len(top.Kids) < 3 {
+		return
+	}
+	for _, which := range []string{"unprotected", "protected"} {
+		v, err := cd.decode(b)
+		if err != nil {
+			return
+		}
+		h := c09headersOf(v)
+		if h == nil {
+			return
+		}
+		mode := partialMode.Add(1) % 3
+		pick := func(cur []byte) []byte {
+			switch mode {
+			case 0:
+				return nil
+			case 1:
+				return []byte{}
+			}
+			return cur[:0]
+		}
+		if which == "unprotected" {
+			h.RawUnprotected = pick(h.RawUnprotected)
+		} else {
+			h.RawProtected = pick(h.RawProtected)
+		}
+		inn := map[string]any{"wire": in["wire"], "discarded": "Raw" + which, "mode": mode}
+		var out []byte
+		if guard(rec, kind+".MarshalCBOR(one raw field discarded)", inn, func() { out, err = cd.encode(v) }) {
+			return
+		}
+		rec.Eval(1)
+		rec.Event("partial-discard:" + which)
+		if err != nil {
+			rec.Violate("partial-discard", kind+"/"+which+"/encode", "an accepted message cannot be encoded after one raw header field was discarded: "+err.Error(), inn)
+			return
+		}
+		o, perr := refcbor.Parse(out)
+		if perr != nil {
+			rec.Violate("partial-discard", kind+"/"+which+"/unreadable", "re-encoding is not CBOR: "+perr.Error(), inn)
+			return
+		}
+		for o.Major == refcbor.Tag {
+			o = o.Kids[0]
+		}
+		if o.Major != refcbor.Array || len(o.Kids) != len(top.Kids) {
+			rec.Violate("partial-discard", kind+"/"+which+"/shape", "re-encoding has another shape", inn)
+			return
+		}
+		keptIdx := 0
+		if which == "protected" {
+			keptIdx = 1
+		}
+		if !eqBytes(out[o.Kids[keptIdx].Start:o.Kids[keptIdx].End], b[top.Kids[keptIdx].Start:top.Kids[keptIdx].End]) {
+			rec.Violate("partial-discard", kind+"/"+which+"/kept-bucket-changed", fmt.Sprintf("discarding Raw%s changed the bytes of the OTHER bucket\n in  %s\n out %s", which, hexs(b[top.Kids[keptIdx].Start:top.Kids[keptIdx].End]), hexs(out[o.Kids[keptIdx].Start:o.Kids[keptIdx].End])), inn)
+			return
+		}
+		// (the re-encoded bucket itself is judged by the full-discard oracles below: the CBOR library
+		//  legitimately normalises float widths, date tags and key order there)
+		if _, derr := cd.decode(out); derr != nil && !c09hasBignumWitness(b) && !strings.Contains(derr.Error(), "overflows Go's int64") {
+			rec.Violate("partial-discard", kind+"/"+which+"/refused", "re-encoding after discarding Raw"+which+" is refused by the decoder: "+derr.Error(), inn)
+			return
+		}
+		if which == "unprotected" && verify != nil {
+			v2, derr := cd.decode(out)
+			if derr != nil {
+				rec.Violate("partial-discard", kind+"/decode", "re-encoding after discarding RawUnprotected is refused: "+derr.Error(), inn)
+				return
+			}
+			if verr := verify(v2); verr != nil {
+				rec.Violate("partial-discard", kind+"/verify", "signature no longer verifies after only RawUnprotected was discarded: "+verr.Error(), inn)
+				return
+			}
+			rec.Event("partial-discard:verified")
+		}
+	}
 }
